@@ -14,7 +14,7 @@ PROPERTIES = {
         "title": "point operations are linearizable",
         "jobs": [{"bin": "h_tree", "args": ["lin", "--oracle", "lin"], "shards": 16}],
         "accept": r"lin:|crash",
-        "deadline": {"quick": 150, "thorough": 1500},
+        "deadline": {"quick": 300, "thorough": 1500},
         "rule": E1_RULE, "assumptions": SC_ASSUME,
     },
     "C04": {
